@@ -22,6 +22,12 @@ LEVEL = 'proof'
 
 logging.disable(logging.CRITICAL)
 
+
+def regen(ctx):
+    """Tie 1: the anchored functions, re-read from the current source on every run (fail closed)."""
+    from translate import c05_shape
+    ctx.write_gen('C05Shape', c05_shape.translate(ctx.repo))
+
 MODEL = ['Model.Acl']
 FIXED_CID = 0x3E
 MASK = (1 << 30) - 1
@@ -610,15 +616,23 @@ def run_iso_impl(c, rng):
             per_sdu.append(('ok', before, len(objs)))
         except AssertionError:
             per_sdu.append(('error', before, len(objs)))
+    # reception: the bytes go into a second real Host (on_packet -> on_hci_iso_data_packet -> 'iso_packet')
+    rx_host = Host()
+    rx_host.ready = True
+    rx_events = []
+    rx_host.on('iso_packet', lambda h, pkt: rx_events.append([h, iso_obs(pkt)]))
+    for raw in sink.packets:
+        rx_host.on_packet(raw)
     out = []
     for st, a, b in per_sdu:
         if st == 'error':
             out.append(None)
             continue
         pk = []
-        for p, raw in zip(objs[a:b], sink.packets[a:b]):
+        for i, (p, raw) in enumerate(zip(objs[a:b], sink.packets[a:b])):
             back = hci.HCI_Packet.from_bytes(raw)
-            pk.append([iso_obs(p), bytes_sum(raw), iso_obs(back), bytes(p.iso_sdu_fragment)])
+            rx = rx_events[a + i] if len(rx_events) == len(sink.packets) else None
+            pk.append([iso_obs(p), bytes_sum(raw), iso_obs(back), bytes(p.iso_sdu_fragment), rx])
         out.append(pk)
     return out, link.packet_sequence_number
 
@@ -673,8 +687,10 @@ def iso_oracle(c, out, final_seq):
             seq = (seq + 1) & 0xFFFF
             continue            # zero-length SDU: see docs/C05.md open questions
         got = b''
-        for i, (obs, raw, back, frag) in enumerate(pk):
+        for i, (obs, raw, back, frag, rx) in enumerate(pk):
             h, pb, tl, (sq, sl, psf), _ = obs
+            if rx != [c['handle'], back]:
+                return f'sdu {k} ({len(sdu)} bytes): fragment {i} did not reach the receiving host as one iso_packet event, in order'
             first, last = i == 0, i == len(pk) - 1
             if h != c['handle']:
                 return f'sdu {k}: handle {h}'
@@ -717,7 +733,7 @@ class Spy:
         return getattr(self.inner, name)
 
 
-async def two_device_scenario(geom, sends, budget=4000000):
+async def two_device_scenario(geom, sends, budget=4000000, classic=False):
     """geom: [(m0, n0), (m1, n1)]; sends: list of (direction 0|1, cid, pattern spec).
     Returns per direction: handle pair, packets host->controller at the sender, packets
     controller->host at the receiver, 'l2cap_pdu' events and fixed-channel calls at the receiver."""
@@ -735,14 +751,26 @@ async def two_device_scenario(geom, sends, budget=4000000):
     addrs = ['F0:F0:F0:F0:F0:F0', 'F1:F1:F1:F1:F1:F1']
     ctrls = [Controller(f'C{i}', link=link, public_address=addrs[i]) for i in range(2)]
     for c, (m, n) in zip(ctrls, geom):
-        c.le_acl_data_packet_length = m
-        c.total_num_le_acl_data_packets = n
-        # the BR/EDR buffers are different on purpose: the LE link must not use them
-        c.acl_data_packet_length = m + 3 if m + 3 <= 65535 else m - 3
-        c.total_num_acl_data_packets = n + 1
+        other = m + 3 if m + 3 <= 65535 else m - 3
+        # the buffers of the other transport are different on purpose: the link must not use them
+        if classic:
+            c.acl_data_packet_length, c.total_num_acl_data_packets = m, n
+            c.le_acl_data_packet_length, c.total_num_le_acl_data_packets = other, n + 1
+        else:
+            c.le_acl_data_packet_length, c.total_num_le_acl_data_packets = m, n
+            c.acl_data_packet_length, c.total_num_acl_data_packets = other, n + 1
     devs = [Device(address=hci.Address(addrs[i]), host=Host(ctrls[i], AsyncPipeSink(ctrls[i]))) for i in range(2)]
 
     async def setup():
+        if classic:
+            from bumble.core import PhysicalTransport
+            for d in devs:
+                d.classic_enabled = True
+            for d in devs:
+                await d.power_on()
+            return list(await asyncio.gather(
+                devs[0].connect(devs[1].public_address, transport=PhysicalTransport.BR_EDR),
+                devs[1].accept(devs[0].public_address)))
         for d in devs:
             await d.power_on()
         fut = loop.create_future()
@@ -804,8 +832,8 @@ async def two_device_scenario(geom, sends, budget=4000000):
             'hang': hang, 'loop_errors': sorted(set(loop_errors))}
 
 
-def run_two(geom, sends):
-    return asyncio.run(two_device_scenario(geom, sends))
+def run_two(geom, sends, classic=False):
+    return asyncio.run(two_device_scenario(geom, sends, classic=classic))
 
 
 def parse_acl(raw_list):
@@ -866,7 +894,7 @@ def gen_two_case(rng, big, quick=True):
         sends.append((d, FIXED_CID, (rng.choice([65535, 65535, 65534, 65532, 65531]), rng.range(1, 255), rng.range(0, 255))))
         sends.append((d, FIXED_CID, (rng.range(0, 30), 3, 1)))
     sends = rng.shuffle(sends)
-    return {'geom': geom, 'sends': sends}
+    return {'geom': geom, 'sends': sends, 'classic': rng.chance(1, 3)}
 
 
 def two_expr(geom, sends, handles, d):
@@ -904,14 +932,16 @@ def load_corpus():
 
 
 def two_case_from_json(o):
-    return {'geom': [tuple(g) for g in o['geom']], 'sends': [(s[0], s[1], tuple(s[2])) for s in o['sends']]}
+    return {'geom': [tuple(g) for g in o['geom']], 'sends': [(s[0], s[1], tuple(s[2])) for s in o['sends']],
+            'classic': bool(o.get('classic', False))}
 
 
 # ----------------------------------------------------------------------------- run
 def check_two(ctx, c, label, evaluate_model=True):
     geom, sends = c['geom'], c['sends']
-    res = run_two(geom, sends)
-    replay = {'kind': 'two', 'geom': [list(g) for g in geom], 'sends': [[d, cid, list(s)] for d, cid, s in sends]}
+    res = run_two(geom, sends, classic=c.get('classic', False))
+    replay = {'kind': 'two', 'geom': [list(g) for g in geom], 'sends': [[d, cid, list(s)] for d, cid, s in sends],
+              'classic': bool(c.get('classic', False))}
     bad = two_oracle(geom, sends, res)
     if bad:
         ctx.violation(f'two:{bad[0]}', bad[1], replay)
@@ -1045,7 +1075,7 @@ def run(ctx):
     # small scope, complete: every sequence of up to N packets over {start-complete, start-partial,
     # continuation completing / short / exceeding}; judged by the oracle on the bare assembler and
     # through Host.on_packet; compared with the model up to a smaller N (50 sequences per expression)
-    deep = (not ctx.quick()) or getattr(ctx, 'escalated', False)
+    deep = not ctx.quick()
     n_bare, n_host, n_model = (6, 5, 5) if deep else (5, 4, 4)     # lengths, not counts: no ctx.n
     ctx.extra['exhaustive_assembler_scope'] = (f'all sequences over {SCOPE_LETTERS} of length <= {n_bare} (bare assembler), '
                                                f'<= {n_host} (Host.on_packet), <= {n_model} (also against the model)')
@@ -1257,6 +1287,7 @@ def run(ctx):
         ctx.case(('two', geom, sends), multi, replay if k % 15 == 1 else None)
         ctx.count('D.scenarios')
         ctx.count('D.corpus' if k < ncorpus else 'D.generated')
+        ctx.count('D.classic_br_edr' if c.get('classic') else 'D.le')
         ctx.count('D.pdus', len(sends))
         ctx.count('D.pdus>=65531', sum(1 for _, _, s in sends if s[0] >= 65531))
         for d in (0, 1):
@@ -1344,7 +1375,7 @@ def replay(ctx, obj):
     kind = r['kind']
     if kind == 'two':
         c = two_case_from_json(r)
-        res = run_two(c['geom'], c['sends'])
+        res = run_two(c['geom'], c['sends'], classic=c['classic'])
         for d in (0, 1):
             print(f'direction {d}->{1 - d}: sent', [s[0] for dd, _, s in c['sends'] if dd == d],
                   'arrived', [len(p) for _, _, p in res['ev'][1 - d]],
